@@ -92,8 +92,39 @@ func (c *Ctx) cloneRule(p *Program, f *ssa.Function) {
 				}
 			}
 		}
+		// reference-typed fields (slices, pointers, maps) whose target is modified in place by some
+		// method must be deep-copied: a shallow copy lets the clone and the original share it
+		var shared []string
+		pkgRel := strings.TrimPrefix(named.Obj().Pkg().Path(), circlPath+"/")
+		for i := 0; i < st.NumFields(); i++ {
+			switch st.Field(i).Type().Underlying().(type) {
+			case *types.Slice, *types.Pointer, *types.Map:
+			default:
+				continue
+			}
+			fn := st.Field(i).Name()
+			inPlace := false
+			for _, w := range p.fieldWriters(pkgRel, named.Obj().Name(), fn) {
+				if w.Kind != "assign" && w.Kind != "assign-copy-of-itself" {
+					inPlace = true
+				}
+			}
+			if !inPlace {
+				continue
+			}
+			d, individually := covered[i]
+			if whole && !individually {
+				shared = append(shared, fn+" (copied only by the whole-struct copy)")
+			} else if individually && (d == "param#0."+fn || d == "*param#0."+fn) {
+				shared = append(shared, fn+" (assigned the same reference)")
+			}
+		}
+		if len(shared) > 0 {
+			c.bad("C15.clone", construct, "fields modified in place by the type's methods are shared between the original and the copy: "+strings.Join(shared, ", "), p.fnPos(f))
+			return
+		}
 		if whole {
-			c.ok("C15.clone", construct, "whole-struct copy of the receiver", p.fnPos(f))
+			c.ok("C15.clone", construct, "whole-struct copy of the receiver; reference fields that are modified in place are re-assigned", p.fnPos(f))
 			return
 		}
 		var missing, wrong []string
@@ -261,7 +292,7 @@ func checkC15(c *Ctx) {
 		return
 	}
 	c.Clauses = append(c.Clauses,
-		"C15.clone: every Clone of a streaming state (sha3.State, k12.State) copies each field of the state from the same field of the receiver (or the whole struct)",
+		"C15.clone: every Clone of a streaming state (sha3.State, k12.State) copies each field of the state from the same field of the receiver (or the whole struct), and deep-copies every slice / pointer field that some method modifies in place",
 		"C15.reset: Reset rewrites every field Write/Read modify (mod-set of the streaming methods ⊆ mod-set of Reset, with reasoned exceptions)",
 		"C15.params: the sponge constructors set rate = 200 - 2·security bytes, the SHA-3 (0x06) / SHAKE (0x1f) domain bytes, 12 rounds only for TurboSHAKE; KangarooTwelve uses the domain bytes 0x07 (single node), 0x0B (leaves), 0x06 (final node) and 8192-byte chunks",
 		"C15.ascon-tag: Open computes the expected tag into a buffer of its own (not derived from any parameter, hence not aliasing dst or the ciphertext) and releases the plaintext only behind the constant-time comparison with the received tag",
